@@ -141,6 +141,19 @@ CLAIMS = {
              "first and the last content of each macrostep; TraceC13.tla accepts a run only if the consumed sequence is a merge "
              "of the producers' sequences (each event exactly once, per-sender order) and has the shape (dequeue, begin, end)*.",
         note="The real scheduler is steered, not enumerated; exhaustiveness is at the model level. HTTP producers are covered by C20."),
+    "C14": dict(
+        category="model_checking", design_ref="4/C14",
+        technique="TLC model checking of Invoke.tla (invoke life cycle with racing child events, completion and cancellation) + trace validation of recorded parent/child scenarios (TraceC14.tla)",
+        text="Invoke.tla (a parent with an invoking state, a child that sends events and may finish, cancellation on exit, the "
+             "dequeue filter) is model-checked for InvokeOncePerStableEntry, NothingAfterCancel and DoneInvokeOnceAndLast over "
+             "all interleavings. Recorded scenarios (parent with a transient invoking state, two simultaneous invokes - one "
+             "with params and finalize, one with autoforward - and a re-entered invoking state; settled, jittered and back-to-back "
+             "event timings) are judged by TraceC14.tla from the tracer records of the parent and of every child: starts "
+             "exactly for the states stable at macrostep end, one cancel per running invoke on exit, no child event (by "
+             "invoke id) after its cancel, finalize exactly for events of that invoke, forwarded copies exactly for "
+             "autoforward children, params only for declared data, done.invoke once and only for children that finished.",
+        note="Timings are steered (settle pauses, jitter, back-to-back sends), not enumerated; the race outcomes are enumerated only "
+             "in Invoke.tla. Whether <finalize> also runs for done.invoke itself is not judged. Only inline <content> children."),
     "C15": dict(
         category="model_checking", design_ref="4/C15",
         technique="TraceC15.tla: routing function Dest(topology, sender, target form) and delivery predicate evaluated by TLC on recorded multi-session scenarios",
